@@ -110,85 +110,189 @@ theorem inter_prec (c d : Interval ℝ) : (c.inter d).prec = max c.prec d.prec :
 
 /-! ## emptiness -/
 
-/-- `isEmpty` is reported iff the denoted set is empty -/
-theorem isEmpty_iff (c : Interval ℝ) : c.isEmpty = true ↔ c.denote = ∅ := by
-  rw [Set.eq_empty_iff_forall_notMem]
+/-- **isEmpty_iff_real** (full strength, no guard): emptiness is reported iff no real number is
+accepted — for every combination of bounds (finite, equal, crossed, infinite on either side,
+`[+inf,+inf]` and `[-inf,-inf]` included) and flags -/
+theorem isEmpty_iff_real (c : Interval ℝ) : c.isEmpty = true ↔ ∀ v : ℝ, c.isCorrect v = false := by
+  have fin_mem : ∀ v : ℝ, c.isCorrect v = false ↔ ¬ ((v : EReal) ∈ c.denote) := by
+    intro v; rw [Bool.eq_false_iff, Ne, isCorrect_iff]
   constructor
-  · intro hE x hx
-    rw [mem_denote] at hx
-    obtain ⟨h1, h2⟩ := hx
-    rcases (isEmpty_iff_cond c).1 hE with h | ⟨h, a | b⟩
+  · intro hE v
+    rw [fin_mem, mem_denote]
+    rintro ⟨h1, h2⟩
+    rcases (isEmpty_iff_cond c).1 hE with h | ⟨h, a | b | l | u⟩
     · split_ifs at h1 h2 <;> order
     · simp only [a, Bool.false_eq_true, if_false] at h1
       split_ifs at h2 <;> order
     · simp only [b, Bool.false_eq_true, if_false] at h2
       split_ifs at h1 <;> order
+    · -- lo = hi = -inf: a real is not below -inf
+      have : (v : EReal) ≤ ⊥ := by rw [← l, h]; split_ifs at h2 <;> order
+      exact absurd (le_bot_iff.1 this) (EReal.coe_ne_bot v)
+    · have : (⊤ : EReal) ≤ v := by rw [← u, ← h]; split_ifs at h1 <;> order
+      exact absurd (top_le_iff.1 this) (EReal.coe_ne_top v)
   · intro hall
     by_contra hne
     obtain ⟨h1, h2⟩ := not_isEmpty_cond c hne
-    rcases lt_or_eq_of_le h1 with hlt | heq
-    · obtain ⟨x, hx1, hx2⟩ := exists_between hlt
-      apply hall x
-      rw [mem_denote]
-      refine ⟨?_, ?_⟩ <;> split_ifs <;> order
-    · obtain ⟨a, b⟩ := h2 heq
-      apply hall c.lo.toEReal
-      rw [mem_denote]
-      simp only [a, b, if_true]
-      exact ⟨le_refl _, heq.le⟩
-
-/-- … iff no double (infinite ones included) is accepted -/
-theorem isEmpty_iff_forall (c : Interval ℝ) : c.isEmpty = true ↔ ∀ v : Bound ℝ, c.isCorrectB v = false := by
-  rw [isEmpty_iff, Set.eq_empty_iff_forall_notMem]
-  constructor
-  · intro h v
-    rw [Bool.eq_false_iff, Ne, isCorrectB_iff]; exact h _
-  · intro h x
-    obtain ⟨b, rfl⟩ := Bound.toEReal_surjective x
-    rw [← isCorrectB_iff]; simp [h b]
-
-/-- Emptiness over the *reals*.  Full statement wanted: `c.isEmpty ↔ ∀ v : ℝ, ¬ c.isCorrect v`.
-It is false for `[+inf,+inf]` and `[-inf,-inf]` (`isEmpty_real_witness`), which accept the infinite
-double only; it holds under the guard `proper` (lower bound not `+inf`, upper bound not `-inf`). -/
-theorem isEmpty_iff_real_partial (c : Interval ℝ) (hp : c.proper = true) :
-    c.isEmpty = true ↔ ∀ v : ℝ, c.isCorrect v = false := by
-  constructor
-  · intro h v; exact (isEmpty_iff_forall c).1 h (.fin v)
-  · intro hall
-    by_contra hne
-    have hlo : c.lo.toEReal ≠ ⊤ := by
-      intro h; unfold proper at hp
-      cases hl : c.lo <;> simp_all
-    have hhi : c.hi.toEReal ≠ ⊥ := by
-      intro h; unfold proper at hp
-      cases hl : c.hi <;> simp_all
-    obtain ⟨h1, h2⟩ := not_isEmpty_cond c hne
-    have fin_acc : ∀ v : ℝ, ¬ ((v : EReal) ∈ c.denote) := by
-      intro v hv; have := hall v; rw [Bool.eq_false_iff, Ne, isCorrect_iff] at this; exact this hv
     rcases lt_or_eq_of_le h1 with hlt | heq
     · obtain ⟨x, hx1, hx2⟩ := EReal.lt_iff_exists_real_btwn.1 hlt
-      apply fin_acc x
+      apply (fin_mem x).1 (hall x)
       rw [mem_denote]
       refine ⟨?_, ?_⟩ <;> split_ifs <;> order
     · obtain ⟨a, b⟩ := h2 heq
-      -- the common bound is finite
-      cases hl : c.lo with
-      | negInf => rw [hl] at heq; exact hhi heq.symm
-      | posInf => rw [hl] at hlo; exact hlo rfl
-      | fin x =>
-        apply fin_acc x
-        rw [mem_denote]
-        simp only [a, b, if_true, hl, Bound.toEReal_fin] at *
-        exact ⟨le_refl _, heq.le⟩
+      obtain ⟨x, hl, hh⟩ := not_isEmpty_finite c hne heq
+      apply (fin_mem x).1 (hall x)
+      rw [mem_denote]
+      simp only [a, b, if_true, hl, hh, Bound.toEReal_fin]
+      exact ⟨le_refl _, le_refl _⟩
 
-/-- the guard of `isEmpty_iff_real_partial` is needed: `[+inf,+inf]` accepts no real, yet is not
-reported empty -/
-theorem isEmpty_real_witness :
+/-- the same with sets: `isEmpty` iff the denoted set contains no real number -/
+theorem isEmpty_iff (c : Interval ℝ) : c.isEmpty = true ↔ c.denote ∩ Set.range ((↑) : ℝ → EReal) = ∅ := by
+  rw [isEmpty_iff_real, Set.eq_empty_iff_forall_notMem]
+  constructor
+  · rintro h x ⟨hx, v, rfl⟩
+    have := h v; rw [Bool.eq_false_iff, Ne, isCorrect_iff] at this; exact this hx
+  · intro h v
+    rw [Bool.eq_false_iff, Ne, isCorrect_iff]
+    exact fun hv => h v ⟨hv, v, rfl⟩
+
+/-- a non-empty interval has a real member (the witness the driver looks for among its probe
+points: a bound or a point between the bounds) -/
+theorem not_isEmpty_iff_exists (c : Interval ℝ) : c.isEmpty = false ↔ ∃ v : ℝ, c.isCorrect v = true := by
+  rw [← Bool.not_eq_true, isEmpty_iff_real]
+  push Not
+  simp only [Bool.not_eq_false]
+
+/-- an interval that accepts no double at all (infinite ones included) is reported empty; the
+converse is *not* demanded by the property and does not hold: `[+inf,+inf]` accepts the infinite
+double `+inf`, which is not a real number, and is reported empty (`isEmpty_infinite_point`) -/
+theorem isEmpty_of_denote_empty (c : Interval ℝ) (h : c.denote = ∅) : c.isEmpty = true := by
+  rw [isEmpty_iff, h, Set.empty_inter]
+
+theorem isEmpty_infinite_point :
     let c : Interval ℝ := Interval.make .posInf .posInf true true 0
-    c.isEmpty = false ∧ ∀ v : ℝ, c.isCorrect v = false := by
-  refine ⟨by simp [Interval.make, isEmpty, Bound.gtb, Bound.ltb, Bound.eqb], ?_⟩
-  intro v
-  simp [Interval.make, isCorrect, isCorrectB, Bound.geb, Bound.leb]
+    let d : Interval ℝ := Interval.make .negInf .negInf true true 0
+    c.isEmpty = true ∧ c.isCorrectB .posInf = true ∧ d.isEmpty = true ∧ d.isCorrectB .negInf = true := by
+  simp [Interval.make, isEmpty, isCorrectB, finiteLowerBound, finiteUpperBound, Bound.gtb, Bound.geb, Bound.ltb,
+    Bound.leb, Bound.eqb]
+
+/-- the intersection is reported empty iff no real is accepted by both operands -/
+theorem inter_isEmpty_iff (c d : Interval ℝ) :
+    (c.inter d).isEmpty = true ↔ ∀ v : ℝ, ¬ (c.isCorrect v = true ∧ d.isCorrect v = true) := by
+  rw [isEmpty_iff_real]
+  refine forall_congr' fun v => ?_
+  rw [Bool.eq_false_iff, Ne, inter_iff]
+
+/-! ## comparisons with a value, comparisons of intervals, the bound setters -/
+
+/-- `c < v`, `c > v`, `c <= v`, `c >= v` (Constraints.h:195-213) are sound: every accepted value
+(infinite doubles included) is below / above `v` — what the driver evaluates on the
+implementation's answers (clause `cmp_sound`) -/
+theorem cmp_sound (c : Interval ℝ) (v : Bound ℝ) (x : EReal) (hx : x ∈ c.denote) :
+    (c.ltV v = true → x < v.toEReal) ∧ (c.gtV v = true → v.toEReal < x) ∧
+    (c.leV v = true → x ≤ v.toEReal) ∧ (c.geV v = true → v.toEReal ≤ x) := by
+  rw [mem_denote] at hx
+  obtain ⟨h1, h2⟩ := hx
+  refine ⟨?_, ?_, ?_, ?_⟩
+  · unfold ltV
+    cases hi : c.inclHi <;> simp only [hi, Bool.false_eq_true, if_false, if_true] at h2 ⊢ <;>
+      simp only [Bound.ltb_iff, Bound.leb_iff] <;> intro h <;> order
+  · unfold gtV
+    cases hi : c.inclLo <;> simp only [hi, Bool.false_eq_true, if_false, if_true] at h1 ⊢ <;>
+      simp only [Bound.gtb_iff, Bound.geb_iff] <;> intro h <;> order
+  · unfold leV
+    simp only [Bound.leb_iff]; intro h
+    split_ifs at h2 <;> order
+  · unfold geV
+    simp only [Bound.geb_iff]; intro h
+    split_ifs at h1 <;> order
+
+/-- … and exact on an interval with `lo < hi`: `c < v` iff every accepted value is below `v`,
+`c <= v` iff every accepted value is at most `v` (and symmetrically) -/
+theorem ltV_iff (c : Interval ℝ) (v : Bound ℝ) (h : c.lo.toEReal < c.hi.toEReal) :
+    c.ltV v = true ↔ ∀ x ∈ c.denote, x < v.toEReal := by
+  constructor
+  · intro hl x hx; exact (cmp_sound c v x hx).1 hl
+  · intro hall
+    unfold ltV
+    cases hi : c.inclHi
+    · simp only [Bool.false_eq_true, if_false, Bound.leb_iff]
+      by_contra hn
+      have hv : v.toEReal < c.hi.toEReal := not_le.1 hn
+      obtain ⟨y, hy1, hy2⟩ := exists_between (max_lt h hv)
+      have hy : y ∈ c.denote := by
+        rw [mem_denote, hi]
+        simp only [Bool.false_eq_true, if_false]
+        exact ⟨by split_ifs <;> [exact (lt_of_le_of_lt (le_max_left _ _) hy1).le; exact lt_of_le_of_lt (le_max_left _ _) hy1], hy2⟩
+      exact absurd (hall y hy) (not_lt.2 (lt_of_le_of_lt (le_max_right _ _) hy1).le)
+    · simp only [if_true, Bound.ltb_iff]
+      apply hall
+      rw [mem_denote, hi]
+      simp only [if_true, le_refl, and_true]
+      split_ifs <;> [exact h.le; exact h]
+
+theorem leV_iff (c : Interval ℝ) (v : Bound ℝ) (h : c.lo.toEReal < c.hi.toEReal) :
+    c.leV v = true ↔ ∀ x ∈ c.denote, x ≤ v.toEReal := by
+  constructor
+  · intro hl x hx; exact (cmp_sound c v x hx).2.2.1 hl
+  · intro hall
+    unfold leV
+    rw [Bound.leb_iff]
+    by_contra hn
+    have hv : v.toEReal < c.hi.toEReal := not_le.1 hn
+    obtain ⟨y, hy1, hy2⟩ := exists_between (max_lt h hv)
+    have hy : y ∈ c.denote := by
+      rw [mem_denote]
+      refine ⟨?_, ?_⟩
+      · split_ifs <;> [exact (lt_of_le_of_lt (le_max_left _ _) hy1).le; exact lt_of_le_of_lt (le_max_left _ _) hy1]
+      · split_ifs <;> [exact hy2.le; exact hy2]
+    exact absurd (hall y hy) (not_le.2 (lt_of_le_of_lt (le_max_right _ _) hy1))
+
+/-- `operator==` compares bounds and flags (not the precision); equal intervals accept the same
+values; `operator!=` is its negation -/
+theorem eqI_iff (c d : Interval ℝ) : c.eqI d = true ↔
+    c.lo.toEReal = d.lo.toEReal ∧ c.inclLo = d.inclLo ∧ c.hi.toEReal = d.hi.toEReal ∧ c.inclHi = d.inclHi := by
+  unfold eqI
+  simp only [Bool.and_eq_true, Bound.eqb_iff, beq_iff_eq]
+  tauto
+
+theorem eqI_denote (c d : Interval ℝ) (h : c.eqI d = true) : c.denote = d.denote := by
+  obtain ⟨h1, h2, h3, h4⟩ := (eqI_iff c d).1 h
+  ext x
+  rw [mem_denote, mem_denote, h1, h2, h3, h4]
+
+theorem neI_eq_not_eqI (c d : Interval ℝ) : c.neI d = !c.eqI d := by
+  unfold neI eqI
+  cases Bound.eqb c.lo d.lo <;> cases Bound.eqb c.hi d.hi <;> cases c.inclLo <;> cases d.inclLo <;>
+    cases c.inclHi <;> cases d.inclHi <;> rfl
+
+/-- `operator<=(IntervalConstraint)` ("is included or equal in another one", Constraints.h:396)
+compares the bounds only: it is inclusion of the *closures*.  It is not inclusion of the
+intervals — `[0,1] <= ]0,1[` is true (`leI_flags_witness`).  No clause of C01 is about this
+operator and nothing in the library calls it; the model is bug-compatible. -/
+theorem leI_iff (c d : Interval ℝ) : c.leI d = true ↔ d.lo.toEReal ≤ c.lo.toEReal ∧ c.hi.toEReal ≤ d.hi.toEReal := by
+  unfold leI
+  simp only [Bool.and_eq_true, Bound.geb_iff, Bound.leb_iff]
+
+theorem leI_flags_witness :
+    let c : Interval ℝ := Interval.make (.fin 0) (.fin 1) true true 0
+    let d : Interval ℝ := Interval.make (.fin 0) (.fin 1) false false 0
+    c.leI d = true ∧ c.isCorrect 0 = true ∧ d.isCorrect 0 = false := by
+  simp [Interval.make, leI, isCorrect, isCorrectB, Bound.geb, Bound.gtb, Bound.leb, Bound.ltb]
+
+/-- `setLowerBound(b, strict)` / `setUpperBound(b, strict)` replace one end and nothing else:
+afterwards exactly the values above (below) the new end, and accepted at the other end, are accepted -/
+theorem setLowerBound_iff (c : Interval ℝ) (b : Bound ℝ) (strict : Bool) (v : ℝ) :
+    (c.setLowerBound b strict).isCorrect v = true ↔
+      (if strict then b.toEReal < v else b.toEReal ≤ v) ∧ (if c.inclHi then (v : EReal) ≤ c.hi.toEReal else (v : EReal) < c.hi.toEReal) := by
+  rw [isCorrect_iff_bounds]
+  cases strict <;> simp [setLowerBound]
+
+theorem setUpperBound_iff (c : Interval ℝ) (b : Bound ℝ) (strict : Bool) (v : ℝ) :
+    (c.setUpperBound b strict).isCorrect v = true ↔
+      (if c.inclLo then c.lo.toEReal ≤ v else c.lo.toEReal < v) ∧ (if strict then (v : EReal) < b.toEReal else (v : EReal) ≤ b.toEReal) := by
+  rw [isCorrect_iff_bounds]
+  cases strict <;> simp [setUpperBound]
 
 /-! ## limits -/
 
@@ -657,7 +761,21 @@ theorem legacy_isEmpty_witness :
     let c : Interval ℝ := Interval.make (.fin 1) (.fin 1) true false 0
     Interval.Legacy.isEmpty c = false ∧ c.denote = ∅ := by
   refine ⟨by simp [Interval.Legacy.isEmpty, Interval.make, Bound.gtb, Bound.ltb], ?_⟩
-  rw [← isEmpty_iff]; simp [isEmpty, Interval.make, Bound.gtb, Bound.ltb, Bound.eqb]
+  simp only [Interval.make]
+  rw [denote_co]
+  exact Set.Ico_self _
+
+/-- `isEmpty_iff_real` still failed after that repair: `[+inf,+inf]` and `[-inf,-inf]` accept no
+real number, yet were not reported empty (second repair of `isEmpty`) -/
+theorem legacy_isEmpty_infinite_witness :
+    let c : Interval ℝ := Interval.make .posInf .posInf true true 0
+    let d : Interval ℝ := Interval.make .negInf .negInf true true 0
+    Interval.Legacy.isEmpty1 c = false ∧ (∀ v : ℝ, c.isCorrect v = false) ∧
+    Interval.Legacy.isEmpty1 d = false ∧ (∀ v : ℝ, d.isCorrect v = false) := by
+  refine ⟨by simp [Interval.make, Interval.Legacy.isEmpty1, Bound.gtb, Bound.ltb, Bound.eqb], ?_,
+    by simp [Interval.make, Interval.Legacy.isEmpty1, Bound.gtb, Bound.ltb, Bound.eqb], ?_⟩
+  · intro v; simp [Interval.make, isCorrect, isCorrectB, Bound.geb, Bound.leb]
+  · intro v; simp [Interval.make, isCorrect, isCorrectB, Bound.geb, Bound.leb]
 
 /-- `inter_iff` failed: `]0,1] & [0,1]` accepted 0, which the left operand rejects
 (both for `operator&` and `operator&=`) -/
